@@ -447,6 +447,7 @@ fn twin_mfl_refuses() {
     let len: usize = kani::any();
     kani::assume(len > 1023);
     let _ = AVP::make_flags_and_length(kani::any(), kani::any(), len);
+    kani::cover!(true, "vf-returned"); // must be unreachable: `should_panic` alone is existential (kani_run.py checks this)
 }
 #[kani::proof]
 #[kani::unwind(10)]
